@@ -270,6 +270,13 @@ def install(ctx):
             return opt_sym(okc, Ref(Loc(Cell(Str(s.b, z3.simplify(s.lo + a), z3.simplify(s.lo + b)), 'str.get'))))
         raise Unsupported('str::get with %r' % (rng,))
 
+    @M.reg('str::bytes')
+    def str_bytes(ip, pc, args, dt):
+        from models_coll import Seq, Window
+        s_ = as_str(args[0]).normalised()
+        seq = Seq([S(s_.bt(j), 'u8') for j in range(len(s_.b))], s_.len_t(), 'vec')
+        return Window(seq, 0, seq.n)
+
     @M.reg('str::split', 'str::splitn')
     def str_split(ip, pc, args, dt):
         if pc['method'] == 'splitn':
